@@ -235,10 +235,11 @@ template <typename T, template <typename> class Acc>
 static void bins_case(report& r, std::vector<item<T>> const& alpha, std::vector<std::vector<sz>> const& per_result,
     sz ndist, std::string const& id)
 {
-    // per_result[i] = indices (integrated, bins of d0 (2), bins of d1 (2 x 2 = 4, two-dimensional))
+    // per_result[i] = indices (integrated, bins of d0 (6), bins of d1 (2 x 2 = 4, two-dimensional)): the distributions
+    // have different numbers of bins, the first one more than the second
     r.eval();
-    auto nbins = [](sz d) { return d == 0 ? sz(2) : sz(4); };
-    auto first = [](sz d) { return d == 0 ? sz(1) : sz(3); };
+    auto nbins = [](sz d) { return d == 0 ? sz(6) : sz(4); };
+    auto first = [](sz d) { return d == 0 ? sz(1) : sz(7); };
     std::vector<hep::plain_result<T>> seq;
     for (auto const& pr : per_result)
     {
@@ -247,7 +248,7 @@ static void bins_case(report& r, std::vector<item<T>> const& alpha, std::vector<
         {
             std::vector<hep::mc_result<T>> bins;
             for (sz b = 0; b != nbins(d); ++b) bins.push_back(alpha[pr[first(d) + b]].res);
-            if (d == 0) dists.emplace_back(hep::make_dist_params<T>(2, T(0), T(1), "d0"), bins);
+            if (d == 0) dists.emplace_back(hep::make_dist_params<T>(6, T(0), T(1), "d0"), bins);
             else dists.emplace_back(hep::distribution_parameters<T>(2, 2, T(0), T(1), T(0), T(1), "d1"), bins);
         }
         auto const& in = alpha[pr[0]].res;
@@ -324,7 +325,7 @@ static void distributions(report& r)
     {
         std::vector<std::vector<sz>> per_result(len);
         for (sz i = 0; i != len; ++i)
-            for (sz k = 0; k != 1 + (ndist >= 1 ? 2 : 0) + (ndist >= 2 ? 4 : 0); ++k)
+            for (sz k = 0; k != 1 + (ndist >= 1 ? 6 : 0) + (ndist >= 2 ? 4 : 0); ++k)
                 per_result[i].push_back((start + stride * (i * 5 + k * 3)) % n);
         bool usable = true;
         for (auto const& pr : per_result) for (sz k : pr) usable &= alpha[k].usable;
